@@ -8,6 +8,7 @@ that function, byte for byte, plus
   * the dialect rewrites listed in DESIGN.md section 1 (each recorded).
 Nothing is addressed by line number or by a regex over statements.
 """
+import json
 import os
 import re
 import sys
@@ -545,11 +546,51 @@ fn main() {}
 '''
 
 
+
+# --------------------------------------------------------------------------
+# anchors: statement / loop heads recorded with the contracts (contracts/anchors.json) so that ordinals can be
+# re-aligned when statements were inserted or removed, and a splice never lands on a different statement
+# --------------------------------------------------------------------------
+def stmt_head(text):
+    t = ' '.join(text.strip().split())
+    mm = re.match(r'for\s+(.+?)\s+in\b', t)
+    if mm:
+        return 'for %s in' % mm.group(1)
+    for kw in ('while', 'loop', 'if', 'match', 'return'):
+        if re.match(kw + r'\b', t):
+            return kw
+    cut = len(t)
+    for ch in ('(', '{', ';'):
+        i = t.find(ch)
+        if 0 <= i < cut:
+            cut = i
+    mm = re.search(r'(?<![=!<>+\-*/])=(?!=)', t)      # plain or compound assignment: keep the place, drop the operator
+    if mm and mm.start() < cut:
+        cut = mm.start()
+        while cut > 0 and t[cut - 1] in '+-*/ ':
+            cut -= 1
+    return t[:cut].strip()[:60]
+
+
+def align(old, new):
+    """Map positions of `old` to positions of `new` (1-based) through the matching blocks of a sequence alignment."""
+    import difflib
+    sm = difflib.SequenceMatcher(None, old, new, autojunk=False)
+    mp = {}
+    for a, b, n in sm.get_matching_blocks():
+        for k in range(n):
+            mp[a + k + 1] = b + k + 1
+    return mp
+
 class Generator:
     def __init__(self, repo, cdir):
         self.repo = repo
         self.cdir = cdir
         self.specs, self.raws, self.prelude = load_contracts(cdir)
+        try:
+            self.anchors = json.load(open(os.path.join(cdir, 'anchors.json')))
+        except Exception:
+            self.anchors = {}
         # headers are matched exactly first; if the bounds of an impl header were edited, fall back to the header
         # without its generic parameter list (self type / trait only)
         self.loose = {}
@@ -863,6 +904,51 @@ class Generator:
             sig = sig[:r0] + '(' + sp.ret + ': ' + stripped + ')' + tail + sig[r1:]
         return sig
 
+    def fn_heads(self, rel, fn):
+        """Heads of the top-level statements, of the loops (pre-order) and of every loop body's statements."""
+        s, m = self.srcs[rel], self.masks[rel]
+        loops = rsparse.find_loops(s, m, fn.body_open + 1, fn.body_close)
+        stmts = rsparse.split_statements(s, m, fn.body_open + 1, fn.body_close)
+        return {'stmts': [stmt_head(s[a:b]) for a, b in stmts],
+                'loops': [stmt_head(s[lp.kw_pos:lp.open]) for lp in loops],
+                'lbody': {str(k): [stmt_head(s[a:b]) for a, b in rsparse.split_statements(s, m, lp.open + 1, lp.close)]
+                          for k, lp in enumerate(loops, 1)}}
+
+    def remap_spec(self, sp, anch, cur):
+        """The function's statements / loops differ from the recorded ones: move every ordinal the contract uses to the
+        statement / loop with the same head (sequence alignment); an ordinal whose statement is gone is a lost anchor."""
+        import copy
+        lm = align(anch['loops'], cur['loops'])
+        st = align(anch['stmts'], cur['stmts'])
+        sp2 = copy.copy(sp)
+
+        def lost(what):
+            return ExtractError('lost anchor: %s: %s of %s no longer exists (statements were restructured)' % (sp.origin, what, sp.name))
+        sp2.loops = {}
+        for k, d in sp.loops.items():
+            if k not in lm:
+                raise lost('loop %d' % k)
+            sp2.loops[lm[k]] = d
+        sp2.iters = set()
+        for k in sp.iters:
+            if k not in lm:
+                raise lost('loop %d' % k)
+            sp2.iters.add(lm[k])
+        sp2.stmts = {}
+        for k, d in sp.stmts.items():
+            if k not in st:
+                raise lost('statement %d' % k)
+            sp2.stmts[st[k]] = d
+        sp2.lstmts = {}
+        for (lk, k), d in sp.lstmts.items():
+            if lk not in lm:
+                raise lost('loop %d' % lk)
+            bm = align(anch['lbody'].get(str(lk), []), cur['lbody'].get(str(lm[lk]), []))
+            if k not in bm:
+                raise lost('statement %d of loop %d' % (k, lk))
+            sp2.lstmts[(lm[lk], bm[k])] = d
+        return sp2
+
     def emit_fn(self, out, rel, header, fn, unit, vacuity, indent, src_override=None):
         """A contract whose structural anchors no longer fit the function (a loop / statement / rewrite place it names
         is gone: the body was restructured) does not take the whole unit down: the function alone is emitted
@@ -888,6 +974,13 @@ class Generator:
             return
         sp.used = True
         fnid = sp.ident
+        reanchored = False
+        anch = self.anchors.get(fnid)
+        if anch and not degrade and fn.body_open is not None and (sp.loops or sp.stmts or sp.lstmts or sp.iters):
+            cur = self.fn_heads(rel, fn)
+            if cur != anch:
+                sp = self.remap_spec(sp, anch, cur)
+                reanchored = True
         tagged = unit is None or bool(set(sp.props) & set(unit))
         in_scope = (not sp.external) and (tagged or fnid in getattr(self, 'closure', set()))
         verified = in_scope and not degrade
@@ -910,7 +1003,7 @@ class Generator:
         self.fninfo[fnid] = {'props': sp.props, 'verified': verified, 'file': rel, 'closure': verified and not tagged,
                              'src_lines': [start_line, end_line], 'external': sp.external,
                              'origin': sp.origin, 'has_requires': bool(re.search(r'\brequires\b', sp.sig)),
-                             'vac_exempt': 'const' in getattr(fn, 'quals', [])}
+                             'vac_exempt': 'const' in getattr(fn, 'quals', []), 'reanchored': reanchored}
         if degrade:
             self.fninfo[fnid]['lost_anchor'] = degrade
             self.fninfo[fnid]['in_scope'] = in_scope
